@@ -83,6 +83,10 @@ const (
 	ContractStorageBased
 )
 
+// headerVerificationGasLimit is the amount of GAS a block witness verification
+// can take, see core.HeaderVerificationGasLimit.
+const headerVerificationGasLimit = 3_00000000
+
 // Ledger is the interface required from Blockchain for Module to operate.
 type Ledger interface {
 	AddHeaders(...*block.Header) error
@@ -535,6 +539,21 @@ func (s *Module) AddBlock(block *block.Block) error {
 	expectedH := s.bc.GetHeaderHash(block.Index)
 	if !block.Hash().Equals(expectedH) {
 		return fmt.Errorf("invalid block: hash mismatch: expected %s, got %s", expectedH, block.Hash().StringLE())
+	}
+	// The hash doesn't cover the witness. The header was verified with its
+	// witness when it was added; the block's copy replaces it in the DB.
+	if !s.bc.GetConfig().SkipBlockVerification {
+		known, err := s.bc.GetHeader(expectedH)
+		if err != nil || !bytes.Equal(known.Script.InvocationScript, block.Script.InvocationScript) ||
+			!bytes.Equal(known.Script.VerificationScript, block.Script.VerificationScript) {
+			prev, err := s.bc.GetHeader(block.PrevHash)
+			if err != nil {
+				return fmt.Errorf("invalid block: failed to get previous header: %w", err)
+			}
+			if _, err = s.bc.VerifyWitness(prev.NextConsensus, block, &block.Script, headerVerificationGasLimit); err != nil {
+				return fmt.Errorf("invalid block: %w", err)
+			}
+		}
 	}
 	cache := s.dao.GetPrivate()
 	if err := cache.StoreAsBlock(block, nil, nil); err != nil {
